@@ -17,6 +17,13 @@ NX, NY, NV = F(P(0), "nx"), F(P(0), "ny"), F(P(0), "nvars")
 VARS, NODES = F(P(0), "vars"), F(P(0), "nodes")
 
 
+def _adt(t):
+    t = str(t or "").lstrip("&").strip()
+    if t.startswith("mut "):
+        t = t[4:]
+    return t.split("<", 1)[0]
+
+
 def flat(i, j):
     return lin_add(lin_mul(i, NY), j)
 
@@ -25,6 +32,17 @@ def run(rep, pdb, tier):
     # ---- flat index: every access to Mesh2D::vars is a*ny + b with a < nx, b < ny (raw index operators excluded, as the property says)
     st = container_stride(pdb, "mesh2d::Mesh2D")
     rep.add("flat-index/map", "Mesh2D's Index impl defines the flat map vars[i*ny + j]", st == ("vars", "ny"), None, "discovered map: %s" % (st,), where="src/mesh2d.rs")
+    # the two raw index operators state no range check (outside the claim), but they must address the SAME slot: one map
+    ops = [f for f in pdb.local_fns() if f.get("impl_trait") in ("std::ops::Index", "std::ops::IndexMut") and _adt(f.get("impl_self")) == "mesh2d::Mesh2D"]
+    maps = {}
+    for f in ops:
+        c_ = Ctx.for_fn(pdb, f)
+        sites = [n for n in walk(f["body"]) if n.get("k") == "Index" and not in_macro(n) and c_.term(n["base"]) == VARS]
+        maps[f["impl_trait"]] = [c_.term(n["idx"]) for n in sites]
+    want = [flat(("field", P(1), "0"), ("field", P(1), "1"))]
+    rep.add("flat-index/map-agree", "Index and IndexMut of Mesh2D address the same slot vars[node.0 * ny + node.1] (a write through one is what a read through the other returns)",
+            len(ops) == 2 and all(v == want for v in maps.values()), ops[-1]["body"] if ops else None,
+            "index terms: %s" % {k.split("::")[-1]: [repr(t)[:80] for t in v] for k, v in maps.items()}, where=loc(ops[-1]["body"]) if ops else "src/mesh2d.rs")
     n_sites = 0
     seq = {}
     for fn in pdb.local_fns():
